@@ -4,6 +4,7 @@ import JetVerif.Model.Lex
 import Driver.Read
 import JetVerif.Model.Loaders
 import JetVerif.Model.SetM
+import JetVerif.Props.C20
 
 open JetVerif
 
@@ -156,7 +157,35 @@ def setmCmd (dev : Bool) (exts : List (List UInt8)) (ops : List Sexp) : Sexp :=
     .list [.atom "unsupported", .atom "fuel"]
   else .list res.toList
 
+partial def readTree : Sexp → Option Visitor.Tree
+  | .list (.atom "n" :: .atom id :: .atom kind :: slots) =>
+    let kids := slots.mapM fun s => match s with
+      | .atom "nil" => some none
+      | .list ts => (ts.mapM readTree).map some
+      | _ => none
+    kids.map fun ks => .node (id.toNat?.getD 0) kind ks
+  | _ => none
+
+partial def listNodeIds : Visitor.Tree → List Nat
+  | .node id kind kids =>
+    (if kind == "ListNode" then [id] else []) ++ kids.flatMap (fun k => (k.getD []).flatMap listNodeIds)
+
+def walkCmd (t : Sexp) : Sexp :=
+  match readTree t with
+  | none => .atom "bad-op"
+  | some tree =>
+    let fuel := 200
+    let lists := listNodeIds tree
+    let wfOk := Visitor.wf Props.C20.jetSchema fuel tree
+    let res := match Visitor.walk Facts.visitArms fuel tree with
+      | .ok l => Sexp.list (.atom "ok" :: (l.filter (fun i => !lists.contains i)).map Sexp.ofNat)
+      | .crash _ => .list [.atom "crash"]
+      | .fuel => .list [.atom "fuel"]
+    .list [.list [.atom "wf", Sexp.ofBool wfOk], res]
+
 def dispatch : Sexp → Sexp
+  | .list [.atom "walk", .list [.atom "n", _, .atom "ParseError"]] => .list [.atom "parse-error"]
+  | .list [.atom "walk", t] => walkCmd t
   | .list (.atom "setm" :: .atom dev :: .list (.atom "exts" :: exts) :: ops) => setmCmd (dev == "true") (bytesList exts) ops
   | .list (.atom "inmem" :: ops) => inmemCmd ops
   | .list [.atom "multi", .list loaders, .list queries] => multiCmd loaders queries
